@@ -172,6 +172,7 @@ std::string Model::logger_name_at(int slot, uint64_t seq) const
 void register_c03(std::vector<Profile>&);
 void register_c05(std::vector<Profile>&);
 void register_c06(std::vector<Profile>&);
+void register_c07(std::vector<Profile>&);
 void register_c08(std::vector<Profile>&);
 void register_c09(std::vector<Profile>&);
 void register_c10(std::vector<Profile>&);
@@ -188,6 +189,7 @@ static std::vector<Profile>& registry()
     register_c03(v);
     register_c05(v);
     register_c06(v);
+    register_c07(v);
     register_c08(v);
     register_c09(v);
     register_c10(v);
